@@ -39,6 +39,9 @@ CATALOG = {
               functions=[GRAMMAR, FIND, REGEXES, TOKENS]),
             S("s-c06-structured", "c06_roundtrip", {"structured": True, "quick": True}, {"structured": True, "quick": False}, shards=4,
               functions=[GRAMMAR, FIND, REGEXES, TOKENS]),
+            S("s-c06-freeform-plain", "c06_freeform", {"n": 9}, {"n": 12}, shards=6, functions=[GRAMMAR, FIND, REGEXES, TOKENS]),
+            S("s-c06-freeform-structured", "c06_freeform", {"n": 8, "structured": True}, {"n": 11, "structured": True}, shards=8,
+              functions=[GRAMMAR, FIND, REGEXES, TOKENS], timeout=1800),
             S("s-c06-placement-structured", "c10_templates", {"structured": True, "quick": True}, {"structured": True, "quick": False}, shards=6),
             S("s-c06-placement-plain", "c10_templates", {"structured": False, "quick": True}, {"structured": False, "quick": False}, shards=6)],
     "C10": [S("s-c10-multi-config", "c10_multi_config", {}, shards=3),
